@@ -161,6 +161,11 @@ def check(ctx):
         for k in range(3):
             jobs.append({"msgs": [{"exp": exps[k], "buf": b} for b in hostile_history(ctx.rng, proto)], "want_json": True})
         jobs.append({"msgs": [{"exp": exps[1], "buf": b} for b in position_history(ctx.rng, proto)], "want_json": True})
+        # every element at a length above its own (addresses, MAC addresses, numbers in more octets than their type has)
+        gg = gen_flow.Gen(ctx.rng, proto)
+        ov = gg.per_element("oversized")
+        for i in range(0, len(ov), 2):
+            jobs.append({"msgs": [{"exp": exps[2], "buf": m} for m in ov[i:i + 2]], "want_json": True})
         g = gen_flow.Gen(ctx.rng, proto)
         for h in range(300 if thorough else 50):
             jobs.append({"msgs": [{"exp": exps[h % 3], "buf": b} for b in g.history(6)], "want_json": True})
